@@ -83,7 +83,7 @@ def skewness(root: Node) -> np.ndarray:
     thd_moment = moment(root, order=3)
     g1 = fst_moment ** 2.0
     g2 = snd_moment - g1
-    g3 = 3.0 * snd_moment + 2.0 * g1
+    g3 = 3.0 * snd_moment - 2.0 * g1
     return (thd_moment - fst_moment * g3) / (g2 ** 1.5)
 
 
